@@ -64,7 +64,55 @@ fn parse_values(txt: &str) -> (String, Vec<Vec<u8>>) {
     (h, vals)
 }
 
+/// `mq2_replay --e2 <function> <u64>...`: evaluate one of the real integer kernels natively
+/// (used to validate the MIR->SMT translation and to replay E2 counterexamples).
+fn e2(args: &[String]) {
+    use multiqueue2::verif_hooks as vh;
+    use std::sync::atomic::Ordering::Relaxed;
+    let f = args[0].as_str();
+    let v: Vec<u64> = args[1..].iter().map(|a| a.parse::<u64>().expect("u64 argument")).collect();
+    let r = panic::catch_unwind(|| match f {
+        "get_valid_wrap" => format!("{}", vh::get_valid_wrap(v[0])),
+        "past" => {
+            let (d, t) = vh::past(v[0] as usize, v[1] as usize);
+            format!("{} {}", d, t as u8)
+        }
+        "rm_tag" => format!("{} {}", vh::rm_tag(v[0] as usize), vh::is_tagged(v[0] as usize) as u8),
+        "matches_previous" => {
+            // h n t
+            let ci = vh::CountedIndex::from_usize(v[0] as usize, v[1]);
+            format!("{}", ci.load_transaction(Relaxed).matches_previous(v[2] as usize) as u8)
+        }
+        "get" => {
+            let ci = vh::CountedIndex::from_usize(v[0] as usize, v[1]);
+            let (i, t) = ci.load_transaction(Relaxed).get();
+            format!("{} {}", i as u64, t)
+        }
+        "prev_matches" => {
+            // count d n
+            let prev = vh::CountedIndex::get_previous(v[0] as usize, v[1]);
+            let ci = vh::CountedIndex::from_usize(v[0] as usize, v[2]);
+            format!("{} {}", prev, ci.load_transaction(Relaxed).matches_previous(prev) as u8)
+        }
+        "check" => {
+            let at = vh::AtomicUsize::new(v[1] as usize);
+            let wc = vh::AtomicUsize::new(v[2] as usize);
+            format!("{}", vh::wait_check(v[0] as usize, &at, &wc) as u8)
+        }
+        _ => "unknown-function".to_string(),
+    });
+    match r {
+        Ok(s) => println!("E2 {}", s),
+        Err(_) => println!("E2 PANIC"),
+    }
+}
+
 fn main() {
+    let argv: Vec<String> = std::env::args().collect();
+    if argv.len() > 2 && argv[1] == "--e2" {
+        e2(&argv[2..]);
+        return;
+    }
     let path = std::env::args().nth(1).expect("usage: mq2_replay <replay.json>");
     let txt = std::fs::read_to_string(&path).expect("read replay file");
     let (harness, values) = parse_values(&txt);
